@@ -81,6 +81,14 @@ func TestVerif_C05u(t *testing.T) {
 			ann["other"] = "v"
 		}
 		feature := "last-applied-present"
+		statusInLast := r.Chance(1, 3)
+		if statusInLast {
+			// an earlier answer of the hook carried a status stanza (and system fields): it is on record
+			l["status"] = map[string]interface{}{"phase": "Old", "n": int64(r.Intn(3))}
+			if r.Bool() {
+				l["metadata"] = map[string]interface{}{"name": "c", "uid": "uid-old", "resourceVersion": "7"}
+			}
+		}
 		switch r.Intn(6) {
 		case 0:
 			feature = "last-applied-absent"
@@ -90,6 +98,9 @@ func TestVerif_C05u(t *testing.T) {
 		default:
 			data, _ := k8sjson.Marshal(l)
 			ann[vh.LastAppliedAnnotation] = string(data)
+			if statusInLast {
+				feature += "+status-on-record"
+			}
 		}
 		if len(ann) > 0 {
 			md["annotations"] = ann
